@@ -219,13 +219,16 @@ def main():
     ncpu = int(os.environ.get('PYVC_PROCS') or 0) or os.cpu_count() or 4
     outer = max(1, min(len(tops), 5, max(1, ncpu // 2)))
     inner = max(2, (ncpu - 1) // outer)
+    if all((getattr(t, 'extra', {}) or {}).get('procs') == 1 for t in tops):
+        # a family of tiny lemmas that discharge their obligations in-process: all the parallelism goes to the outer pool
+        outer = max(1, min(len(tops), ncpu))
     jobs = [(prop, top_key(t), a.tier, seed, inner, timeout_ms) for t in tops]
     results = []
     if len(jobs) == 1:
         results = [process_top(jobs[0])]
     else:
         with cf.ProcessPoolExecutor(max_workers=outer) as pool:
-            for out_ in pool.map(process_top, jobs):
+            for out_ in pool.map(process_top, jobs, chunksize=max(1, min(8, len(jobs) // (outer * 4)))):
                 results.append(out_)
                 if os.environ.get('PYVC_PROGRESS'):
                     print(f'  .. {out_["key"]} gen={out_.get("gen_s", 0):.1f}s wall={out_.get("wall_s", 0):.1f}s err={bool(out_.get("error"))}', file=sys.stderr, flush=True)
